@@ -320,17 +320,17 @@ def gen_generic(rng, tier):
 
 
 def cases(rng, tier):
-    N = 1 if tier == "quick" else 8
+    N = 1 if tier == "quick" else 6
     # small exhaustive scope: every (nvdim, norm-spec kind family) at least once on a 1-d two-cell mesh is covered by the
     # random stream below; the explicit stream makes sure each mechanism appears even for unlucky seeds
     for nv in (1, 2, 3, 4):
-        for _ in range(12 * N):
+        for _ in range(40 * N):
             yield gen_prog(rng, tier, nv=nv)
-    for _ in range(260 * N):
+    for _ in range(900 * N):
         yield gen_prog(rng, tier)
-    for _ in range(70 * N):
+    for _ in range(250 * N):
         yield gen_generic(rng, tier)
-    for _ in range(60 * N):
+    for _ in range(200 * N):
         yield gen_prog(rng, tier, malformed=True)
 
 
@@ -440,7 +440,7 @@ def check_rescaled(name, pre, post, targets, fail):
             return
 
 
-def check_derived(name, f, fail):
+def check_derived(name, f, fail, tagset=None):
     """norm getter and orientation of the live field `f`"""
     v = rows(f)
     nv = f.nvdim
@@ -468,8 +468,12 @@ def check_derived(name, f, fail):
         l2 = sq(v[k])
         above = l2 > ATOL * ATOL * (1 + 64 * U)
         below = l2 < ATOL * ATOL * (1 - 64 * U)
-        if is_sq(l2):  # exact norm: no band
+        if exact_len(v[k]):  # exact norm: no band
             above, below = l2 > ATOL * ATOL, l2 <= ATOL * ATOL
+        if tagset is not None:
+            tagset.add("orient:zero-vector" if l2 == 0 else "orient:below-threshold" if below else "orient:above" if above else "orient:band")
+            if l2 != 0 and exact_len(v[k]) and abs(l2 - ATOL * ATOL) <= ATOL * ATOL / 2 ** 40:
+                tagset.add("orient:within-1e-12-of-threshold-exact")
         if below:
             if any(a != 0 for a in o[k]):
                 fail(f"{name}: orientation at cell {k} (length {math.sqrt(float(l2))} <= 1e-8) is {[float(a) for a in o[k]]}, not zero")
@@ -483,6 +487,30 @@ def check_derived(name, f, fail):
                 if abs(a * x[k] - b) > 8 * U * abs(b):
                     fail(f"{name}: orientation*norm at cell {k} gives {float(a * x[k])}, field has {float(b)}")
                     return
+
+
+def nspec_tags(s, ms):
+    if s is None or s["k"] != "arr":
+        return []
+    n = list(ms["n"])
+    shp = "n" if s["shape"] == n else "col" if s["shape"] == n + [1] else "one" if s["shape"] == [1] else "other"
+    return ["norm-arr-shape:" + shp + ("/list" if s.get("as") == "list" else "")]
+
+
+def cell_tags(pre_rows, targets):
+    """which per-cell situations a norm assignment met"""
+    out = set()
+    for k, v in enumerate(pre_rows):
+        z = all(x == 0 for x in v)
+        t = None if targets is None else targets[k]
+        out.add("cell:zero" if z else "cell:nonzero")
+        if not z and t is not None:
+            out.add("target:zero" if t == 0 else "target:neg" if t < 0 else "target:pos")
+        if not z:
+            l2 = sq(v)
+            out.add("len:<=1e-8" if l2 <= ATOL * ATOL else "len:<1e-6" if l2 < Fraction(1, 10 ** 12) else
+                    "len:>1e100" if l2 > Fraction(10) ** 200 else "len:mid")
+    return sorted(out)
 
 
 def run_impl(case):
@@ -509,8 +537,10 @@ def run_impl(case):
     pre, post = rows(plain), rows(f)
     obs["nonzero"] = any(any(x != 0 for x in v) for v in pre)
     obs["normset"] = case["norm"] is not None
+    tagset = set(nspec_tags(case["norm"], ms))
     if case["norm"] is not None:
         check_rescaled("Field(..., norm=)", pre, post, targets_of(case["norm"], ms), fail)
+        tagset.update(cell_tags(pre, targets_of(case["norm"], ms)))
     elif pre != post:
         fail("Field(...) without norm does not hold the plain values")
     vk = case["valid"]["k"]
@@ -528,7 +558,7 @@ def run_impl(case):
         fail("constructor validity is not uniformly the value passed")
     if f.unit != case["unit"] or f.nvdim != nv or f.mesh != mesh:
         fail("constructor changed unit, nvdim or mesh")
-    check_derived("after constructor", f, fail)
+    check_derived("after constructor", f, fail, tagset)
     # ---- steps
     for si, st in enumerate(case["steps"]):
         pre_json = fieldio.field_json(f)
@@ -549,6 +579,9 @@ def run_impl(case):
             obs["err"] = type(e).__name__
             tags.append("step:err")
             obs["state_after_rejection_changed"] = rows(f) != pre_rows
+            if obs["state_after_rejection_changed"]:
+                tags.append("observation:rejected-norm-left-field-normalised")
+            tags += sorted(tagset)
             return obs
         obs["pre"].append(pre_json)
         obs["snaps"].append(snap(f))
@@ -563,6 +596,8 @@ def run_impl(case):
             else:
                 obs["normset"] = True
                 check_rescaled(name, pre_rows, post_rows, targets_of(st["spec"], ms), fail)
+                tagset.update(nspec_tags(st["spec"], ms))
+                tagset.update(cell_tags(pre_rows, targets_of(st["spec"], ms)))
             if not np.array_equal(f.valid, pre_valid):
                 fail(f"{name}: setting the norm changed the validity")
         elif st["k"] == "update":
@@ -584,7 +619,8 @@ def run_impl(case):
                     if (l2 > ATOL * ATOL * (1 + 64 * U) and not val[k]) or (l2 < ATOL * ATOL * (1 - 64 * U) and val[k]):
                         fail(f"{name}: valid='norm': cell {k} with length {math.sqrt(float(l2))} has valid={val[k]}")
                         break
-        check_derived(f"after {name}", f, fail)
+        check_derived(f"after {name}", f, fail, tagset)
+    tags += sorted(tagset)
     return obs
 
 
@@ -657,13 +693,40 @@ def cmp_data(name, a, b, dis, rel_of, skip=None):
                 return
 
 
+def rep(q):
+    """q is a binary64 number"""
+    try:
+        return Fraction(float(q)) == q
+    except OverflowError:
+        return False
+
+
+def exact_len(v):
+    """the implementation's sqrt(sum of squares) is exact for the cell vector v (Fractions): one non-zero component
+    (sqrt(fl(x^2)) == |x| in binary64), or rational length with every square and partial sum representable"""
+    nz = [x for x in v if x != 0]
+    if len(nz) <= 1:
+        return True
+    l2 = sq(v)
+    if not is_sq(l2):
+        return False
+    acc = Fraction(0)
+    for x in v:
+        if not rep(x * x):
+            return False
+        acc += x * x
+        if not rep(acc):
+            return False
+    return True
+
+
+def info_of(cells):
+    return [(sq(v), exact_len(v)) for v in cells]
+
+
 def cell_info(field_json):
-    """per cell: (squared length, is rational length)"""
-    out = []
-    for row in field_json["data"]:
-        l2 = sum((F(x) ** 2 for x in row), Fraction(0))
-        out.append((l2, is_sq(l2)))
-    return out
+    """per cell: (squared length, norm computed exactly by the implementation)"""
+    return info_of([[F(x) for x in row] for row in field_json["data"]])
 
 
 def cmp_snap(name, impl, model, dis, pre_info=None, field_rel=None):
@@ -736,11 +799,7 @@ def plain_info(case, obs):
         cells = [[fr(x) for x in row] for row in s["data"]]
     else:
         cells = [[poly_eval_frac(ts, p) for ts in s["comps"]] for p in centres_frac(ms)]
-    out = []
-    for v in cells:
-        l2 = sq(v)
-        out.append((l2, is_sq(l2)))
-    return out
+    return info_of(cells)
 
 
 def nontrivial(case, obs):
